@@ -506,6 +506,29 @@ func (e *Env) ident(name string) EVal {
 			}
 		}
 	}
+	// a variable of an enclosing function that this function literal does not capture:
+	// the literal cannot depend on it, so for the literal it is an arbitrary value
+	if e.fr != nil && e.fr.Fn != nil {
+		for pf := e.fr.Fn.Parent(); pf != nil; pf = pf.Parent() {
+			var ty types.Type
+			for _, prm := range pf.Params {
+				if prm.Name() == name {
+					ty = prm.Type()
+				}
+			}
+			if ty == nil {
+				if a := localAlloc(pf, name); a != nil {
+					ty = derefType(a.Type())
+				}
+			}
+			if ty != nil {
+				so := u.P.TW.SortOf(ty)
+				if _, isSt := isStruct(ty); !isSt {
+					return EVal{T: u.Const("uncaptured_"+sanitize(name), so), Ty: ty}
+				}
+			}
+		}
+	}
 	// package-level object
 	if e.pkg != nil {
 		if obj := e.pkg.Scope().Lookup(name); obj != nil {
